@@ -39,7 +39,8 @@ CHECKS = {
                 "translated or mirrored. With a fault injected, raising is fine; returning infeasible values is the violation. "
                 "Sampling, not proof.",
         "note": "The apm/IPOPT binary and GEKKO run real; SimSolver only alters what crosses the process boundary after the "
-                "real solve. Instances on which the solver finds no solution raise and are tallied as 'did not return'.",
+                "real solve (a killed solver leaves the directory as it was before the launch). Instances on which the solver "
+                "finds no solution raise and are tallied as 'did not return'.",
     },
     "C13": {
         "engine": "c13_force",
@@ -85,7 +86,8 @@ CHECKS = {
                 "anything else is a violation. Sampling, not proof; the level fits because the property is a statement "
                 "about histories over process-global state.",
         "note": "A forked child of a zygote that imported FRAME but executed no operation stands for a fresh interpreter. "
-                "Designs within one run stay within a factor 1000 in size. Known findings are keyed by attributed variable.",
+                "Designs within one run stay within a factor 1000 in size. Known findings are keyed by attributed variable. "
+                "SAT encodings are compared by meaning (projected model set); the DIMACS text is an observation (probe).",
     },
     "C19": {
         "engine": "c19_documents",
@@ -102,7 +104,8 @@ CHECKS = {
                 "under write faults the call returns with a good file or raises, and a retry gives the never-faulted document. "
                 "Sampling, not proof.",
         "note": "Numbers compare exactly. Torn documents after a crash are recorded, not judged. rect solutions and FloorSet "
-                "instances are synthesised (DLL/dataset unavailable offline); the legaliser's model is built, not solved.",
+                "instances are synthesised (DLL/dataset unavailable offline); the legaliser's model is built and, in part of the "
+                "runs, solved for one or two iterations. File names rotate or are fixed per kind of document (seeded).",
     },
     "C02": {
         "engine": "c02_c12_refine",
@@ -116,7 +119,8 @@ CHECKS = {
                 "per-module area and centroid through the library's own API. Sampling, not proof; the level fits because the "
                 "property quantifies over compositions and the state shared between parent and child allocations.",
         "note": "Reference arithmetic is exact on the floats FRAME holds (Fraction); dyadic layouts must agree exactly, decimal "
-                "ones within 1e-9 relative. Layouts have <=10 initial cells and <=400 cells after refinement.",
+                "ones within 1e-9 relative. Layouts have <=10 initial cells (rarely 40) and <=1200 cells after refinement; units "
+                "from 1e-7 to 1e12; interruptions land at a seeded fraction of the operation (traced dry run) or at an early line.",
     },
     "C12": {
         "engine": "c02_c12_refine",
@@ -144,7 +148,8 @@ CHECKS = {
                 "quantifies over histories sharing process-global state, which only an execution-level simulator reaches.",
         "note": "Trusts pysat as SAT oracle (used both by FRAME and, independently instantiated, by the projection); managers "
                 "have <=6 user variables so that 2^n assignments can be enumerated; each run executes in a fresh fork of a "
-                "zygote that imported FRAME but ran no FRAME operation.",
+                "zygote that imported FRAME but ran no FRAME operation. Rare large families: 'flood' (store taken to about 2^16 "
+                "nodes before 8-30 more managers) and 'bigcnf' (430-470 variables, planted 3-SAT, solve verdict and model only).",
     },
 }
 
